@@ -37,6 +37,26 @@ CLAIMED = {
         note="Trusted: the arithmetic of one converter called directly "
              "(the model only selects which converter answers), decimalfp "
              "(pure-Python implementation), CPython."),
+    'C15': dict(
+        ref='DESIGN.md 4.3',
+        technique="deterministic simulation: seeded declaration histories "
+                  "(valid and must-reject declarations in any order, memo "
+                  "eviction) against the real global directories in a "
+                  "forked world per run, RefDir reference model as oracle, "
+                  "ddmin-minimised replay files",
+        text="Seeded exploration of declaration histories (base / derived "
+             "types, scaled, term-defined, derived units, currencies, and "
+             "the declarations the statement says must be rejected) in a "
+             "pristine interpreter state per run, with and without the "
+             "predefined catalogue; after every step everything declared so "
+             "far is checked against an independent model (identity under "
+             "the symbol, listing by exactly its type, factory dispatch, "
+             "exact Fraction scale, reference unit of derived types, the "
+             "base type lists nothing). Bounded (<=50 steps) and sampled.",
+        note="Trusted: ~500 lines of model/resolver code, decimalfp "
+             "(pure-Python implementation), CPython. Whether every valid "
+             "declaration is accepted is not part of the statement: "
+             "refusals are followed and counted, not judged."),
 }
 NA = {
     'C01': "pure function of (amount, unit, unit) once units are declared; no schedule, clock, fault or history in the statement. The residue 'a declared chain has the scale it denotes' is exercised by the C15 check.",
